@@ -12,7 +12,7 @@ REQUIRED_MONITORS = ["decomposition@SD_svalsvec", "pick@FDD_mpe(function, Hermit
                      "pick@FDD_MS.mpe", "pick@EFDD first stage", "narrow-band amplitudes@FDD"]
 ALL_STATES = ["band clipped by grid start", "band clipped by grid end", "selected frequency between lines", "maximum at band edge candidate",
               "several peaks in band", "non-square spectrum", "2 channels", "8 channels"]
-REQUIRED_STATES = ["band clipped by grid end", "selected frequency between lines", "several peaks in band", "non-square spectrum"]
+REQUIRED_STATES = ["band clipped by grid end", "selected frequency between lines", "several peaks in band", "non-square spectrum", "array object refilled in place"]
 RULE = ("spectral sequences: synthetic Hermitian (sums of rank-one bells with complex shapes + full-rank floor), half spectra from the 'cor' "
         "estimator, spectra of random responses through FDD / FDD_MS / EFDD; DF 1..15 line spacings, selected frequencies anywhere in the grid; "
         "postconditions on every SD_svalsvec and FDD_mpe call; non-trivial = band holds >= 3 lines and sigma1/sigma2 varies by > 1 % in it; "
@@ -164,6 +164,13 @@ def run_synth(ctx, rng):
     Fn, Phi = fdd.FDD_mpe(Sval, Svec, freq, list(sel), DF=DF)
     check_pick(ctx, "pick@FDD_mpe(function, Hermitian)", "fn", Sc, freq, sel, DF, Fn, Phi)
     ctx.check(np.array_equal(S, Sc), "inputs_modified", "SD_svalsvec / FDD_mpe modified the spectral matrix")
+    if rng.random() < 0.3:
+        # the same array object refilled with another spectrum: the decomposition must follow the content
+        S[...] = np.conj(S[::-1, ::-1, ::-1]) * 0.5 + S[:, :, [0]] * 0.1
+        S2 = S.copy()
+        Sval2, Svec2 = fdd.SD_svalsvec(S)
+        check_decomposition(ctx, S2, Sval2, Svec2)
+        ctx.state("array object refilled in place")
     ctx.state("2 channels" if nch == 2 else ("8 channels" if nch == 8 else "3..7 channels"))
     ctx.sample({"entry": "fdd.SD_svalsvec + fdd.FDD_mpe (synthetic Hermitian)", "channels": nch, "lines": nf, "fs": fs, "sel_freq": sel, "DF_in_lines": DF / df})
 
